@@ -408,6 +408,11 @@ def mon_expect(run, script, il, iab, ml):
                 if rc != '0' or got != data or d['l'][0x22] != n:
                     run.violation('LoRa transmit buffer/length wrong: rc=%s length register=%d expected %d' % (rc, d['l'][0x22], n), script,
                                   {'expected': data, 'got': got})
+        elif kind == 'txonce' and P in ('C06', 'C07', 'C11'):
+            run.cov['monitor_checks'] += 1
+            ntx = len([c for c in cbs if c['kind'] == 'tx'])
+            if ntx != 1:
+                run.violation('one transmit-done event (its acknowledgement failed once, then succeeded): the transmit callback fired %d times' % ntx, script)
         elif kind == 'txdone' and P in ('C06', 'C07'):
             run.cov['monitor_checks'] += 1
             fl = int(args[0])
@@ -605,7 +610,12 @@ def mon_expect(run, script, il, iab, ml):
                     run.violation('beacon interval %d ms rejected (rc=%s)' % (iv, f.get('rc')), script)
                 continue
             ents = spi_entries(f.get('spi'))
-            w = {e['reg']: int(e['data'], 16) for e in ents if e['kind'] == 'W' and e['n'] == 1}
+            w = {}
+            for e in ents:
+                # single writes and bursts alike: the value each register ends up with
+                if e['kind'] in ('W', 'WB') and e['reg'] != 0 and e['fault'] is None and e['data']:
+                    for k in range(e['n']):
+                        w[e['reg'] + k] = int(e['data'][2 * k:2 * k + 2], 16)
             order = [e['reg'] for e in ents if e['kind'] in ('W', 'WB')]
             res = {1: Fraction(64, 1000), 2: Fraction(41, 10), 3: Fraction(262)}
             if 0x38 in w and 0x39 in w and 0x3a in w:
